@@ -6,8 +6,9 @@ PROPS["C18"] = dict(
     props_file="Props/C18.v",
     coq_targets=["Random/Check.vo"],
     check_module="Random.Check",
-    check_fn="check_case",
-    coq_shard=16,          # ~30 kB of Coq per case: small shards keep every coqc short
+    check_fn="check_ccase",
+    case_type="ccase",
+    coq_shard=18,          # ~30 kB of Coq per case: small shards keep every coqc short
     coq_case_timeout=3000,
     streams=[dict(name="main", quick=200, thorough=7000),
              dict(name="zerotime", quick=24, thorough=600),
